@@ -423,6 +423,46 @@ def _numeric_string_defaults(dump):
     return out
 
 
+KEY_BACKSLASH = "description-trailing-backslash"
+
+
+def _backslash_descs(dump):
+    """descriptions of exactly the class of the open finding: one line, shorter
+    than 70 characters, ending with a backslash (printed between triple quotes
+    on one line, where the lexer reads backslash + closing quotes as an escaped
+    triple quote)"""
+    found = []
+
+    def one(path, d):
+        if d and "\n" not in d and len(d) < 70 and d.endswith("\\"):
+            found.append(path)
+
+    def ivs(path, l):
+        for a in l:
+            one("%s(%s)" % (path, a["name"]), a["desc"])
+    for t in dump["types"]:
+        one(t["name"], t["desc"])
+        if t["kind"] in ("object", "interface"):
+            for f in t["fields"]:
+                one("%s.%s" % (t["name"], f["name"]), f["desc"])
+                ivs("%s.%s" % (t["name"], f["name"]), f["args"])
+        elif t["kind"] == "enum":
+            for v in t["values"]:
+                one("%s.%s" % (t["name"], v["name"]), v["desc"])
+        elif t["kind"] == "input":
+            ivs(t["name"], t["fields"])
+    for d in dump["directives"]:
+        one("@" + d["name"], d["desc"])
+        ivs("@" + d["name"], d["args"])
+    return found
+
+
+def _parse_key(case, obs):
+    if any(o["descriptions"] for _, o in case["steps"]) and any(_backslash_descs(d) for d in obs.get("dumps", [])):
+        return KEY_BACKSLASH
+    return None
+
+
 def _finding_key(case, obs):
     if any(_numeric_string_defaults(d) for d in obs.get("dumps", [])):
         return KEY_NUMERIC_STRING
@@ -441,8 +481,12 @@ _ROUNDTRIP_CHECKS = ("rebuilt-schema-identical", "rebuilt-defaults-identical", "
 def direct_checks(case, obs):
     out = []
     key = _finding_key(case, obs)
+    pkey = _parse_key(case, obs)
     for c in obs.get("checks", []):
-        out.append((c, key if c.startswith(_ROUNDTRIP_CHECKS) else None))
+        if c.startswith("parses"):
+            out.append((c, pkey))
+        else:
+            out.append((c, key if c.startswith(_ROUNDTRIP_CHECKS) else None))
     for st in obs["steps"]:
         if "text" not in st:
             out.append(("to_string-raises: %s" % st.get("type", st.get("exc")), None))
